@@ -189,20 +189,19 @@ func verifHarness_C01_hist1(param int) {
 	verifReach("end")
 }
 
-// Two operations after a shape (thorough tier): the first one of the ten state-changing kinds,
+// Two operations after a shape (thorough tier): the first one of five state-changing kinds,
 // the second one arbitrary.
 //
-//verif:bounds 22 shapes x first op in {Malloc, WriteBinary, WriteDirect, MallocAck, Flush, Append, Next, Peek, Slice, Release} x arbitrary second op (25 kinds) + drain; sizes <= 8 MB; loop unrolling 10
+//verif:bounds 22 shapes x first op in {Malloc, WriteBinary, Flush, Next, Slice} x arbitrary second op (25 kinds) + drain; sizes <= 8 MB; loop unrolling 10
 //verif:also C02 C03
 //verif:tier thorough
-//verif:param 0 219
+//verif:param 0 109
 //verif:loop 10
 func verifHarness_C01_hist2(param int) {
-	first := [10]int{verifOpMalloc, verifOpWriteBinary, verifOpWriteDirect, verifOpMallocAck, verifOpFlush,
-		verifOpAppend, verifOpNext, verifOpPeek, verifOpSlice, verifOpRelease}
-	v := verifShape(param / 10)
+	first := [5]int{verifOpMalloc, verifOpWriteBinary, verifOpFlush, verifOpNext, verifOpSlice}
+	v := verifShape(param / 5)
 	verifReach("shape")
-	v.step(first[param%10])
+	v.step(first[param%5])
 	op2 := verifPick("op2", 0, verifOpCount-1)
 	v.step(op2)
 	verifReach("op2")
